@@ -21,11 +21,24 @@ package git
 //gvc:  grants checked: result == nil ==> forall(a, 0, len(paths), spec_wtpath(strid(paths[a])))
 //gvc:end
 
+// validNoLeadingSymlink: a nil result means that every proper leading
+// directory of every path was looked at with Lstat during this very call
+// (no cached verdicts) and none of them is a symbolic link.
 //gvc:func (*worktreeFilesystem).validNoLeadingSymlink
 //gvc:  props C26
 //gvc:  theory int
 //gvc:  opt coarse
 //gvc:  opt frame args
+//gvc:  modifies sfs.Filesystem.#clock, sfs.Filesystem.#lstatAt, sfs.Filesystem.#symAt
+//gvc:  requires nn: sfs.Filesystem != nil
+//gvc:  let c0 = sfs.Filesystem.#clock
+//gvc:  loop 1 invariant done: forall(a, 0, it1, forall(x, spec_leading(strid(paths[a]), x) ==> sfs.Filesystem.#lstatAt[x] > c0 && !sfs.Filesystem.#symAt[x]))
+//gvc:  loop 1 invariant clock: sfs.Filesystem.#clock >= c0
+//gvc:  loop 2 invariant walked: forall(x, spec_leading(strid(p), x) ==> (sfs.Filesystem.#lstatAt[x] > c0 && !sfs.Filesystem.#symAt[x]) || (x == strid(dir) && !(bytes_eq(dir, ".") || bytes_eq(dir, "") || bytes_eq(dir, "/"))) || spec_leading(strid(dir), x))
+//gvc:  loop 2 invariant stop: (bytes_eq(dir, ".") || bytes_eq(dir, "") || bytes_eq(dir, "/")) ==> forall(x, !spec_leading(strid(dir), x))
+//gvc:  loop 2 invariant earlier: forall(a, 0, it1, forall(x, spec_leading(strid(paths[a]), x) ==> sfs.Filesystem.#lstatAt[x] > c0 && !sfs.Filesystem.#symAt[x]))
+//gvc:  loop 2 invariant clock: sfs.Filesystem.#clock >= c0
+//gvc:  ensures walked: result == nil ==> forall(a, 0, len(paths), forall(x, spec_leading(strid(paths[a]), x) ==> sfs.Filesystem.#lstatAt[x] > c0 && !sfs.Filesystem.#symAt[x]))
 //gvc:  grants checked: result == nil ==> forall(a, 0, len(paths), spec_wtnosym(strid(paths[a])))
 //gvc:end
 
